@@ -1564,11 +1564,12 @@ impl UndoOperation for RemoveFont {
 pub struct ChangeFontSlot {
     from: usize,
     to: usize,
+    replaced_font: Option<BitFont>,
 }
 
 impl ChangeFontSlot {
     pub fn new(from: usize, to: usize) -> Self {
-        Self { from, to }
+        Self { from, to, replaced_font: None }
     }
 }
 
@@ -1581,6 +1582,9 @@ impl UndoOperation for ChangeFontSlot {
         let font = edit_state.buffer.remove_font(self.to);
         if let Some(font) = font {
             edit_state.buffer.set_font(self.from, font);
+            if let Some(replaced) = self.replaced_font.take() {
+                edit_state.buffer.set_font(self.to, replaced);
+            }
             Ok(())
         } else {
             Err(anyhow::anyhow!("empty font slot."))
@@ -1590,6 +1594,9 @@ impl UndoOperation for ChangeFontSlot {
     fn redo(&mut self, edit_state: &mut EditState) -> EngineResult<()> {
         let font = edit_state.buffer.remove_font(self.from);
         if let Some(font) = font {
+            if self.from != self.to {
+                self.replaced_font = edit_state.buffer.remove_font(self.to);
+            }
             edit_state.buffer.set_font(self.to, font);
             Ok(())
         } else {
